@@ -86,6 +86,17 @@ def run(ctx):
     for k, t in (('g1', 'int g = f();'), ('g2', 'int g = a ?? b;'), ('g3', 'int g = @y();'), ('g4', 'int g = 1 + 2;'), ('g5', 'int[] g = [f()];'),
                  ('g6', 'int g[f()];')):
         texts[k] = t; expect[k] = (k == 'g4')
+    # global scope, completeness: initialisers and array lengths may mention other globals in every expression form that is not a
+    # call, `??` or try (the first alternative the expression grammar tries on an identifier is a call)
+    gpre = 'const int N = 4; int a = 1; const byte q = 2; int[] arr = [1, 2]; string s = "ab";\n'
+    gforms = ['int g = a;', 'int g = a + 1;', 'int g = (a);', 'int g = -a;', 'bool g = not a;', 'byte g = a is byte;', 'int g = arr[a];',
+              'int g = arr[N - 3];', 'int g = s.length;', 'int g = arr.length + a;', 'int buf[N];', 'byte buf[N + a];', 'byte[] g = [q, 3, q];',
+              'int[] g = [a, N, a * N];', 'bool g = a < N and q == 2;', 'int g = s[0];', 'const int[] g = arr;', 'bool g = arr is bool;',
+              'int g = [a, N][1];', 'int g = [a].length;']
+    for i, f in enumerate(gforms):
+        texts['gv%d' % i] = gpre + f; expect['gv%d' % i] = True
+    for i, f in enumerate(['int g = arr[f()];', 'int g = a + @y();', 'int g = [a, !d()][0];', 'int buf[a ?? N];', 'int g = -(a ?? 1);']):
+        texts['gx%d' % i] = gpre + f; expect['gx%d' % i] = False
     wrong = []
     acc = rej = 0
     for k, t in texts.items():
@@ -103,6 +114,7 @@ def run(ctx):
     # model correspondence on a sample of them and on generated programs with context mutations
     keys = list(texts)
     sample = {k: texts[k] for k in ctx.rng.sample(keys, min(len(keys), ctx.budget(3000, 20000)))}
+    sample.update({k: t for k, t in texts.items() if k.startswith('g')})
     for i in range(ctx.budget(150, 1500)):
         src, _, _ = gen.gen_program(ctx.rng.getrandbits(40), tt=True)
         sample['g%d' % i] = src
